@@ -126,7 +126,7 @@ impl Property for C12Prop {
 
     fn workloads(&self, tier: Tier) -> u64 {
         match tier {
-            Tier::Quick => 12_000,
+            Tier::Quick => 40_000,
             Tier::Thorough => 250_000,
         }
     }
